@@ -83,7 +83,7 @@ class Elem:
             self.witness = lambda ev: ev(n)
         elif pt == 'decimal':
             import decimal
-            fam = ['0', '0.00', '1', '12.50', '99999.999', '0.5']
+            fam = ['0', '0.00', '1', '12.50', '99999.999', '0.5', '1E+2', '2.5E+3', '0.0000001', '1E-3']
             dv = decimal.Decimal(choose(name + '_dec', fam))
             self.value = dv
             self.expect = dv
